@@ -128,6 +128,27 @@ func main() {
 				run.NonTrivial(desc)
 			}
 		}
+		// extra cells: the policy also holds across a restart with a stricter mode. A configured CRL
+		// that was accepted under verify_log / none although it cannot be verified must not be in
+		// force after a restart under verify (provisioning re-applies the current policy)
+		xn := 0
+		for _, first := range []string{"verify_log", "none"} {
+			for _, kind := range []string{"signer-unknown", "signature-wrong"} {
+				for _, backend := range backends {
+					for _, src := range []string{"crl_urls", "crl_files"} {
+						xn++
+						if xn%sn != si {
+							continue
+						}
+						run.Eval(1)
+						desc := fmt.Sprintf("restart-under-verify first-mode=%s crl=%s source=%s backend=%s keys=%s", first, kind, src, backend, round)
+						if e.restartStricter(run, first, kind, src, backend, desc) {
+							run.NonTrivial(desc)
+						}
+					}
+				}
+			}
+		}
 		w.Close()
 	}
 	run.FinishShard()
@@ -330,4 +351,53 @@ func (e *cellEnv) runCell(run *report.Run, mode, kind, intake, backend, desc, ke
 		return true
 	}
 	return false
+}
+
+
+func (e *cellEnv) restartStricter(run *report.Run, first, kind, src, backend, desc string) bool {
+	e.n++
+	w := e.w
+	wd := filepath.Join(e.scratch, fmt.Sprintf("wdx%d", e.n))
+	_ = os.MkdirAll(wd, 0755)
+	defer os.RemoveAll(wd)
+	path := fmt.Sprintf("/x%d.crl", e.n)
+	base := gen.Entries(e.rng, gen.Opts{N: 5, SerialWidth: 8})
+	doc := e.build(kind, base, nil)
+	opts := l2.Opts{WorkDir: wd, Storage: backend, SigMode: first, Fetch: "actively"}
+	file := filepath.Join(e.scratch, fmt.Sprintf("x%d.crlfile", e.n))
+	defer os.Remove(file)
+	if src == "crl_urls" {
+		w.CRL.Set(path, origin.Good(doc))
+		opts.CRLUrls = []string{w.CRL.URL(path)}
+	} else {
+		_ = os.WriteFile(file, doc, 0644)
+		opts.CRLFiles = []string{file}
+	}
+	if kind != "signer-unknown" {
+		opts.Trusted = []*x509.Certificate{w.Int.Cert}
+	}
+	key := fmt.Sprintf("restart-under-verify.%s.%s", first, kind)
+	chk, err := l2.Start(opts)
+	if err != nil {
+		run.Violation(key+".first-run-provision-failed", desc+": "+err.Error(), nil)
+		return false
+	}
+	probe := w.Leaf(base[1].Serial, nil, nil)
+	if rev, _ := chk.Ask(probe); !rev {
+		chk.Stop()
+		run.Violation(key+".first-run-not-in-force", desc+": under "+first+" the parseable CRL is not in force", nil)
+		return false
+	}
+	chk.Stop()
+	opts.SigMode = "verify"
+	chk2, err := l2.Start(opts)
+	if err != nil {
+		return true // refused at provisioning: not in force
+	}
+	defer chk2.Stop()
+	if rev, _ := chk2.Ask(probe); rev {
+		run.Violation(key+".in-force-under-verify-after-restart."+backend, desc+": a CRL that cannot be verified is in force after a restart under 'verify'", nil)
+		return false
+	}
+	return true
 }
